@@ -116,6 +116,9 @@ def classes():
             if k == "initialize":
                 sim.initialize(world.model, world.rep)
                 subscribe(world)
+            elif k == "initialize_bad":
+                # an initialize that has to be refused for its arguments
+                sim.initialize(world.model, "not a replication")
             elif k == "start":
                 sim.start()
             elif k == "step":
@@ -165,9 +168,13 @@ def snapshot(w, s):
     """observable state at quiescence"""
     sim = w.sim
     live = sum(1 for t in s.threads[1:] if t.status != "done")
+    try:
+        pending = sim.eventlist().size()
+    except Exception:  # noqa
+        pending = None
     return dict(run=sim.run_state.name, rep=sim.replication_state.name,
                 clock=float(sim.simulator_time), trace=list(w.model.trace),
-                live_threads=live)
+                live_threads=live, pending=pending)
 
 
 def command(w, s, cmd, arm=None):
